@@ -22,6 +22,8 @@ POOLS = {
               9007199254740994.0, -9007199254740992.0, 1e300, 5e-324, 0.1, 2.0],
     "int": [0, 1, -1, 2, 3, 7, 9007199254740993, -9223372036854775808, 9223372036854775807],
     "int32": [0, 1, -1, 7, 16777217, -16777217, 2147483647, -2147483648, 33554433],
+    "uint8": [0, 1, 2, 7, 200, 255],
+    "uint64": [0, 1, 3, 9007199254740993, 18446744073709551615],
     "bool": [True, False],
     "str": ["", "a", "b", "ab", "B", "ä", "\U0001F600", "￿", "a" * 49, "z", "a,b", 'q"r', "x\ny"],
     "strlong": ["", "a" * 50, "a" * 50 + "x", "a" * 51, "b", "ab", "\U0001F600" * 50, "a" * 49],
@@ -37,7 +39,7 @@ NA_FIRST = {"str": True, "strlong": True, "ustr": True}
 
 
 def has_na_repr(kind):
-    return kind not in ("int", "int32", "bool")
+    return kind not in ("int", "int32", "uint8", "uint64", "bool")
 
 
 def pyval(kind, v):
@@ -67,6 +69,8 @@ def make_array(kind, vals):
         return np.array(vals, dtype=np.int64)
     if kind == "int32":
         return np.array(vals, dtype=np.int32)
+    if kind in ("uint8", "uint64"):
+        return np.array(vals, dtype=kind)
     if kind == "bool":
         return np.array(vals, dtype=bool)
     if kind in ("str", "strlong"):
